@@ -65,6 +65,9 @@ class C19(Check):
                 for cb in (False, True):
                     cfgs.append(Config('optimiser_N%d_W%d_%s_cb%d' % (N, W, lam, cb), self.optimiser,
                                        {'N': N, 'W': W, 'lam': lam, 'cb': cb}, nonlinear=True, split=2))
+        for (N, W) in [(2, 1), (1, 2)]:
+            cfgs.append(Config('optimiser_writable_N%d_W%d' % (N, W), self.optimiser_writable, {'N': N, 'W': W},
+                               nonlinear=True))
         cfgs.append(Config('filter', self.filter, {}))
         cfgs.append(Config('stacking', self.stacking, {}, split=2))
         for W in (1, 2):
@@ -124,6 +127,29 @@ class C19(Check):
         c.prove('optimiser_leaves_inputs_alone',
                 conj([no_caller_writes(), stubs.unchanged(snaps[0], S), stubs.unchanged(snaps[1], L),
                       hasattr(res, 'theta') and res.theta._b is not S._b]))
+
+    def optimiser_writable(self, c, N, W):
+        """Writable caller-owned arguments whose two triangles are independent values (a covariance
+        that is symmetric only up to round-off): nothing may be written back into them.  One
+        iteration on symbolic entries; eigh sees whatever the code hands it (opaque result)."""
+        Rp = self.R
+        n = N * W
+        S = stubs.sym_array(c, 'S', (n, n), owner='caller', writeable=True)
+        L = stubs.sym_array(c, 'lam', (n, n), owner='caller', lo=0, writeable=True)
+        snaps = [stubs.snapshot(S), stubs.snapshot(L)]
+
+        def eig(M):
+            M = np.asarray(M)
+            k = M.shape[0]
+            return (np.array([c.real(c.fresh_name('ev'), 0) for _ in range(k)]), np.eye(k))
+        stubs.install_linalg(eigh=eig, norm=stubs.norm_exact)
+        c.notes.update({'kind': 'optimiser_writable', 'N': N, 'W': W})
+        ok, res = guarded(c, 'optimiser_leaves_inputs_alone', Rp.admm.admm_optimize_theta, S, L, W, N,
+                          max_iterations=1)
+        if not ok:
+            return
+        c.prove('optimiser_leaves_inputs_alone',
+                conj([stubs.unchanged(snaps[0], S), stubs.unchanged(snaps[1], L), no_caller_writes()]))
 
     def filter(self, c):
         Rp = self.R
